@@ -296,6 +296,9 @@ def queries(tier, seed):
         for key in (("LOCAL_NODE_IP_ADDRESS", "PEER_NODE_IP_ADDRESS") if (tier != "quick" or w == [3, 1, 1, 1]) else ("LOCAL_NODE_IP_ADDRESS",)):
             qs.append(Q(f"ip_digits/{key[:5]}/{''.join(map(str, w))}", "ip_digits", {"widths": w, "key": key}, cto=t, pto=t,
                         what=f"{key}: dotted quad with field widths {w}, every digit symbolic (leading zeros, >255 included)"))
+    for key in ("LOCAL_NODE_IP_ADDRESS", "PEER_NODE_IP_ADDRESS"):
+        qs.append(Q(f"ip_digits/{key[:5]}/3121/diameter", "ip_digits", {"widths": [3, 1, 2, 1], "key": key, "via": "diameter"}, cto=t, pto=t,
+                    what=f"{key}: dotted quad with field widths [3, 1, 2, 1] through Diameter(config=...)"))
     for stem in (("10.0.0.1",) if tier == "quick" else ("10.0.0.1", "1.2.3.4", "255.255.255.25")):
         positions = (0, 2, len(stem)) if tier == "quick" else range(len(stem) + 1)
         for ki, key in enumerate(("LOCAL_NODE_IP_ADDRESS", "PEER_NODE_IP_ADDRESS")):
@@ -313,6 +316,8 @@ def queries(tier, seed):
                              f"{'Diameter(config=...) / Config.__init__' if via == 'diameter' else '_convert_config_to_connection_obj'}"))
     for oname in (("identity", "reversed") if tier == "quick" else list(orders)):
         qs.append(Q(f"verbatim/{oname}", "verbatim", {"order": orders[oname]}, cto=t, pto=t, what=f"host names, realm, ports reflected verbatim, key order {oname}"))
+        if oname == "identity":
+            qs.append(Q("verbatim/diameter", "verbatim", {"order": orders[oname], "via": "diameter"}, cto=t, pto=t, what="the same through Diameter(config=...)"))
         for n_, bad_ in ((0, 0), (1, 0), (2, 0), (2, 1), (1, 2)):
             qs.append(Q(f"applications/{oname}/n{n_}bad{bad_}", "applications", {"order": orders[oname], "n": n_, "bad": bad_}, cto=t, pto=t,
                         what=f"{n_} application dicts with symbolic byte values{', one non-bytes value' if bad_ else ''}, key order {oname}"))
